@@ -774,13 +774,15 @@ def c20_geometry(case):
     A = Rotation.random(6, random_state=3).as_matrix()
     amap = {"x": 0, "y": 1, "z": 2}
     for ref in ("xy", "xz", "yx", "yz", "zx", "zy"):
-        for hkl in ([1, 0, 0], [0, 1, 0], [1, 2, -1]):
+        # crystal directions: every sign pattern of integer indices in {-2..2}^3 except 0 (axes, negative axes, multiples), and two float directions
+        dirs = [list(v) for v in it.product((-2, -1, 0, 1, 2), repeat=3) if any(v)] + [[0.5, -0.25, 0.0], [-0.3, 0.0, 0.0]]
+        for hkl in dirs:
             xv, yv, zv = geo.poles(A, ref_axes=ref, hkl=hkl)
             d = np.einsum("gij,i->gj", A, np.array(hkl, dtype=float))
             d /= np.linalg.norm(d, axis=1)[:, None]
             up = (set("xyz") - set(ref)).pop()
             if not (np.allclose(xv, d[:, amap[ref[0]]]) and np.allclose(yv, d[:, amap[ref[1]]]) and np.allclose(zv, d[:, amap[up]])):
-                problems.append(f"poles(ref_axes='{ref}'): components not permuted as specified")
+                problems.append(f"poles(ref_axes='{ref}', hkl={hkl}): not the requested crystal direction in the external frame, permuted as specified")
     u = pts / np.linalg.norm(pts, axis=1)[:, None]
     X, Y = geo.lambert_equal_area(u[:, 0], u[:, 1], u[:, 2])
     far = np.hypot(u[:, 0], u[:, 1]) > 1e-12
